@@ -151,6 +151,28 @@ def opFrameParse (j : Json) : Except String Json := do
   pure (Json.mkObj [("packets", Json.arr (ps.map fun p => Json.arr #[p.type, p.time, toHex p.payload, p.size]).toArray),
     ("end", match fe with | .exhausted => "exhausted" | .headerShort => "headerShort")])
 
+/-- header, block loop, extension -> game, prefix skip, XOR chain and concatenation run in
+the model; the ECB layer is supplied per block by the harness (`dtable`), inflation is
+left to the harness (the compressed bytes are returned) -/
+def opContainerRead (j : Json) : Except String Json := do
+  let ext ← j.getObjValAs? String "ext"
+  let file ← getHex j "file"
+  let tbl ← (← j.getObjValAs? (Array Json) "dtable").toList.mapM fun e => do
+    let a ← e.getArr?
+    if h : a.size = 2 then
+      match fromHex (← a[0].getStr?), fromHex (← a[1].getStr?) with
+      | some c, some p => pure (c, p)
+      | _, _ => throw "bad hex in dtable"
+    else throw "bad dtable entry"
+  let D : Bytes → Bytes := fun c => match tbl.find? (·.1 == c) with | some (_, p) => p | none => []
+  match readContainer D some ext file with
+  | .error e => pure (errJson e)
+  | .ok info =>
+    let g := match info.game with | .wows => "wows" | .wot => "wot" | .wowp => "wowp"
+    pure (Json.mkObj [("ok", Json.mkObj [("game", g), ("engine", toHex info.engine),
+      ("extra", Json.arr (info.extra.map fun b => match b with | some d => (toHex d : Json) | none => Json.null).toArray),
+      ("compressed", toHex info.stream)])])
+
 def opCodecDecode (st : State) (j : Json) : Except String Json := do
   let t ← getTy st j
   let h ← getNat j "h"
@@ -237,6 +259,7 @@ def dispatch (st : State) (op : String) (j : Json) : Except String (State × Jso
   | "defs.load" => opDefsLoad st j
   | "play" => pureOp st (opPlay st j none)
   | "frame.parse" => pureOp st (opFrameParse j)
+  | "container.read" => pureOp st (opContainerRead j)
   | "codec.decode" => pureOp st (opCodecDecode st j)
   | "codec.decodeSeq" => pureOp st (opCodecDecodeSeq st j)
   | "codec.encode" => pureOp st (opCodecEncode st j)
